@@ -16,6 +16,7 @@ HARNESSES = [
     ("fz_xml_file", "fuzz", ("-DVIA_FILE=1",), "fz_xml"),
     ("fz_diffxml", "fuzz", ()),
     ("c09", "rcfork", ()),
+    ("c10", "rcfork", ("-ldl",)),
     ("c11", "rcfork", ()),
     ("c12", "rcfork", ()),
     ("fz_typesscanf", "fuzz", ()),
@@ -102,7 +103,7 @@ def replay_one(ctx, path):
 
 
 # engine cfg.name -> source file name
-ALIASES = {"c01_load": "c01", "c02_history": "c02", "c03_bitmap": "c03", "c05_xml": "c05", "c06_xmlmut": "c06", "c07_synthetic": "c07", "c08_restrict": "c08", "c09_helpers": "c09", "c11_types": "c11", "c12_dup": "c12", "c13_distances": "c13", "c14_memattrs": "c14", "c15_cpukinds": "c15", "c16_diff": "c16", "c19_shmem": "c19", "c04_strings": "c04"}
+ALIASES = {"c01_load": "c01", "c02_history": "c02", "c03_bitmap": "c03", "c05_xml": "c05", "c06_xmlmut": "c06", "c07_synthetic": "c07", "c08_restrict": "c08", "c09_helpers": "c09", "c10_binding": "c10", "c11_types": "c11", "c12_dup": "c12", "c13_distances": "c13", "c14_memattrs": "c14", "c15_cpukinds": "c15", "c16_diff": "c16", "c19_shmem": "c19", "c04_strings": "c04"}
 
 
 def C01(ctx):
@@ -236,4 +237,9 @@ def C19(ctx):
     std_check(ctx, [dict(harness="c19", aliases=["c19_shmem"], cases=(450, 10000), max_ops=5)])
 
 
-PROPS = {"C01": C01, "C19": C19, "C09": C09, "C11": C11, "C07": C07, "C06": C06, "C05": C05, "C16": C16, "C14": C14, "C13": C13, "C15": C15, "C08": C08, "C12": C12, "C02": C02, "C03": C03, "C04": C04}
+def C10(ctx):
+    std_check(ctx, [dict(harness="c10", aliases=["c10_binding"], cases=(1200, 20000), max_ops=1)])
+    ctx.extra["extra_assumptions"] = ["the live round trips (1 case in 8) depend on this sandbox: its kernel, cgroup configuration, allowed CPUs; the recording-mode part is machine independent"]
+
+
+PROPS = {"C01": C01, "C10": C10, "C19": C19, "C09": C09, "C11": C11, "C07": C07, "C06": C06, "C05": C05, "C16": C16, "C14": C14, "C13": C13, "C15": C15, "C08": C08, "C12": C12, "C02": C02, "C03": C03, "C04": C04}
